@@ -480,12 +480,12 @@ pub struct ExploreStats {
 
 pub enum Explore {
     Equal(ExploreStats),
-    Different { witness: String, impl_accepts: Vec<u32>, ref_accepts: Vec<u32>, stats: ExploreStats },
+    Different { witness: String, impl_accepts: Vec<u64>, ref_accepts: Vec<u64>, stats: ExploreStats },
     Budget(ExploreStats),
 }
 
-fn accepted_types(a: &AutomatonDump, set: &[u32]) -> Vec<u32> {
-    let mut v: Vec<u32> = set.iter().filter_map(|s| a.accepting[*s as usize]).collect();
+fn accepted_types(a: &AutomatonDump, set: &[u32]) -> Vec<u64> {
+    let mut v: Vec<u64> = set.iter().filter_map(|s| a.accepting[*s as usize]).collect();
     v.sort_unstable();
     v.dedup();
     v
@@ -511,7 +511,7 @@ pub fn explore_vs_patterns(
     a: &AutomatonDump,
     impl_class_has: &[Vec<bool>],
     d: &mut Deriv,
-    pats: &[(Id, u32)],
+    pats: &[(Id, u64)],
     atoms: &Atoms,
     budget: usize,
 ) -> Explore {
@@ -532,7 +532,7 @@ pub fn explore_vs_patterns(
             let d2: Vec<Id> = key.1.iter().map(|x| d.deriv(*x, atom as u32)).collect();
             stats.transitions += 1;
             let impl_acc = accepted_types(a, &s2);
-            let mut ref_acc: Vec<u32> = d2
+            let mut ref_acc: Vec<u64> = d2
                 .iter()
                 .zip(pats.iter())
                 .filter(|(x, _)| d.is_nullable(**x))
@@ -582,7 +582,7 @@ pub fn explore_vs_patterns(
 
 pub enum PairResult {
     Equivalent { product_states: usize },
-    Different { path: Vec<u32>, acc_a: Vec<u32>, acc_b: Vec<u32> },
+    Different { path: Vec<u32>, acc_a: Vec<u64>, acc_b: Vec<u64> },
     Budget,
 }
 
@@ -693,8 +693,8 @@ fn automata_equiv_atoms(
             ));
         }
     }
-    let la: Vec<(u32, bool)> = a.lookaheads.iter().map(|l| (l.0, l.1)).collect();
-    let lb: Vec<(u32, bool)> = b.lookaheads.iter().map(|l| (l.0, l.1)).collect();
+    let la: Vec<(u64, bool)> = a.lookaheads.iter().map(|l| (l.0, l.1)).collect();
+    let lb: Vec<(u64, bool)> = b.lookaheads.iter().map(|l| (l.0, l.1)).collect();
     if la != lb {
         return Err(format!("{}: lookaheads differ: {:?} vs {:?}", what, la, lb));
     }
